@@ -16,6 +16,9 @@ pub struct LocalVariables<'a> {
     lower_layer: Option<&'a Self>,
     function: Option<FunctionInfo>,
     pub in_loop: bool,
+    /// instructions are being rebuilt for a function value created by a running program
+    /// (and not for the program being parsed)
+    pub at_run_time: bool,
     pub interpreter: &'a Interpreter<'a>,
 }
 
@@ -28,6 +31,7 @@ impl<'a> LocalVariables<'a> {
             function: None,
             interpreter,
             in_loop: false,
+            at_run_time: false,
         }
     }
 
@@ -38,6 +42,7 @@ impl<'a> LocalVariables<'a> {
             function: None,
             interpreter,
             in_loop: false,
+            at_run_time: true,
         }
     }
     pub fn insert(&mut self, name: Arc<str>, variable: LocalVariable) {
@@ -64,6 +69,7 @@ impl<'a> LocalVariables<'a> {
             function: None,
             interpreter: self.interpreter,
             in_loop: self.in_loop,
+            at_run_time: self.at_run_time,
         }
     }
 
@@ -80,6 +86,7 @@ impl<'a> LocalVariables<'a> {
             function: Some(function),
             interpreter: self.interpreter,
             in_loop: false,
+            at_run_time: self.at_run_time,
         }
     }
 
